@@ -8,9 +8,6 @@ Section Locality.
   Variable buf : bytes.
   Variables a b : nat.
   Hypothesis Hab : a <= b <= length buf.
-  (* the line's content is buf[a..b); on both sides there is a "\n" or the end of the buffer *)
-  Hypothesis Hleft : a = 0 \/ byte_at buf (a - 1) = 10%N.
-  Hypothesis Hright : b = length buf \/ byte_at buf b = 10%N.
 
   Let content := sub buf a b.
 
@@ -90,7 +87,10 @@ Section Locality.
         split; [intro H; injection H as <- <-; split; [reflexivity|lia]|intros [H _]; exact H].
   Qed.
 
-  (* ---- look-around ---- *)
+  (* ---- look-around, LF lines: on both sides of the content there is a "\n" or the end of the buffer ---- *)
+  Section LF.
+  Hypothesis Hleft : a = 0 \/ byte_at buf (a - 1) = 10%N.
+  Hypothesis Hright : b = length buf \/ byte_at buf b = 10%N.
   Lemma wb_local i : i <= b - a ->
     negb (Nat.eqb (a + i) 0) && is_word_byte (byte_at buf (a + i - 1))
     = negb (Nat.eqb i 0) && is_word_byte (byte_at content (i - 1)).
@@ -151,8 +151,110 @@ Section Locality.
     - now rewrite WA.
   Qed.
 
-  (* ---- the induction ---- *)
-  Definition nonlocal (h : hir) : bool := has_look (fun l => negb (local_look l)) h.
+  End LF.
+
+  (* ---- look-around, CRLF lines: before the content there is a "\n" or the start of the buffer; after
+          it the end of the buffer, or "\r\n", or a bare "\n" not preceded by "\r" ---- *)
+  Section CRLF.
+  Hypothesis Hleft : a = 0 \/ byte_at buf (a - 1) = 10%N.
+  Hypothesis Hright : b = length buf \/ (byte_at buf b = 13%N /\ b < length buf) \/
+                      (byte_at buf b = 10%N /\ b < length buf /\ (b = a \/ byte_at buf (b - 1) <> 13%N)).
+
+  Lemma right_not_word : b < length buf -> is_word_byte (byte_at buf b) = false.
+  Proof. intro H. destruct Hright as [E|[[E _]|[E _]]]; [lia|rewrite E; reflexivity|rewrite E; reflexivity]. Qed.
+
+  Lemma wb_local_c i : i <= b - a ->
+    negb (Nat.eqb (a + i) 0) && is_word_byte (byte_at buf (a + i - 1))
+    = negb (Nat.eqb i 0) && is_word_byte (byte_at content (i - 1)).
+  Proof.
+    intro Hi. destruct i as [|i'].
+    - rewrite Nat.add_0_r. cbn [Nat.eqb negb andb]. destruct Hleft as [-> | E]; [reflexivity|].
+      rewrite E. cbn. now rewrite andb_false_r.
+    - replace (Nat.eqb (a + S i') 0) with false by (symmetry; apply Nat.eqb_neq; lia).
+      cbn [Nat.eqb negb andb]. rewrite content_byte by lia. f_equal. f_equal. lia.
+  Qed.
+
+  Lemma wa_local_c i : i <= b - a ->
+    Nat.ltb (a + i) (length buf) && is_word_byte (byte_at buf (a + i))
+    = Nat.ltb i (length content) && is_word_byte (byte_at content i).
+  Proof.
+    intro Hi. rewrite content_length. destruct (Nat.eq_dec i (b - a)) as [->|Hne].
+    - replace (a + (b - a)) with b by lia. rewrite Nat.ltb_irrefl. cbn [andb].
+      destruct (Nat.ltb b (length buf)) eqn:E; [|reflexivity]. apply Nat.ltb_lt in E. now rewrite right_not_word.
+    - replace (Nat.ltb i (b - a)) with true by (symmetry; apply Nat.ltb_lt; lia).
+      replace (Nat.ltb (a + i) (length buf)) with true by (symmetry; apply Nat.ltb_lt; lia).
+      now rewrite content_byte by lia.
+  Qed.
+
+  Lemma start_crlf_local i : i <= b - a ->
+    look_matches LStartCRLF buf (a + i) = look_matches LStartCRLF content i.
+  Proof.
+    intro Hi. unfold look_matches. rewrite content_length. destruct i as [|i'].
+    - rewrite Nat.add_0_r. cbn [Nat.eqb orb]. destruct Hleft as [-> | E]; [reflexivity|].
+      rewrite E. change ((10 =? 10)%N) with true. destruct (Nat.eqb a 0); reflexivity.
+    - replace (Nat.eqb (a + S i') 0) with false by (symmetry; apply Nat.eqb_neq; lia).
+      cbn [Nat.eqb orb]. replace (a + S i' - 1) with (a + i') by lia. replace (S i' - 1) with i' by lia.
+      rewrite (content_byte i') by lia.
+      destruct (byte_at buf (a + i') =? 13)%N eqn:E13; [|reflexivity]. cbn [andb]. f_equal.
+      apply N.eqb_eq in E13.
+      destruct (Nat.eq_dec (S i') (b - a)) as [En|Hne].
+      + replace (a + S i') with b by lia. rewrite <- En. rewrite (Nat.leb_refl (S i')). cbn [orb].
+        destruct Hright as [E|[[E _]|(E & Hlt & [Eab|Hprev])]].
+        * rewrite E, Nat.leb_refl. reflexivity.
+        * rewrite E. cbn. apply orb_true_r.
+        * lia.
+        * replace (b - 1) with (a + i') in Hprev by lia. congruence.
+      + replace (Nat.leb (b - a) (S i')) with false by (symmetry; apply Nat.leb_gt; lia).
+        replace (Nat.leb (length buf) (a + S i')) with false by (symmetry; apply Nat.leb_gt; lia).
+        now rewrite content_byte by lia.
+  Qed.
+
+  Lemma end_crlf_local i : i <= b - a ->
+    look_matches LEndCRLF buf (a + i) = look_matches LEndCRLF content i.
+  Proof.
+    intro Hi. unfold look_matches. rewrite content_length. destruct (Nat.eq_dec i (b - a)) as [->|Hne].
+    - replace (a + (b - a)) with b by lia. rewrite (Nat.eqb_refl (b - a)). cbn [orb].
+      destruct Hright as [E|[[E _]|(E & Hlt & Hprev)]].
+      + rewrite E, Nat.eqb_refl. reflexivity.
+      + rewrite E. change ((13 =? 13)%N) with true. destruct (Nat.eqb b (length buf)); reflexivity.
+      + rewrite E. change ((10 =? 13)%N) with false. change ((10 =? 10)%N) with true.
+        rewrite orb_false_r. cbn [andb].
+        destruct Hprev as [Eab|Hprev].
+        * subst b. destruct Hleft as [-> | E1]; [cbn [Nat.eqb orb]; apply orb_true_r|].
+          rewrite E1. change ((10 =? 13)%N) with false. cbn [negb]. now rewrite !orb_true_r.
+        * apply N.eqb_neq in Hprev. rewrite Hprev. cbn [negb]. now rewrite !orb_true_r.
+    - replace (Nat.eqb i (b - a)) with false by (symmetry; apply Nat.eqb_neq; lia).
+      replace (Nat.eqb (a + i) (length buf)) with false by (symmetry; apply Nat.eqb_neq; lia).
+      cbn [orb]. rewrite content_byte by lia. f_equal. f_equal.
+      destruct i as [|i'].
+      + rewrite Nat.add_0_r. cbn [Nat.eqb orb]. destruct Hleft as [-> | E1]; [reflexivity|]. rewrite E1.
+        change ((10 =? 13)%N) with false. cbn [negb]. now rewrite orb_true_r.
+      + replace (Nat.eqb (a + S i') 0) with false by (symmetry; apply Nat.eqb_neq; lia). cbn [Nat.eqb orb].
+        replace (a + S i' - 1) with (a + i') by lia. replace (S i' - 1) with i' by lia.
+        now rewrite (content_byte i') by lia.
+  Qed.
+
+  Lemma look_local_crlf l i : local_look_crlf l = true -> i <= b - a ->
+    look_matches l buf (a + i) = look_matches l content i.
+  Proof.
+    intros Hl Hi. pose proof (wb_local_c i Hi) as WB. pose proof (wa_local_c i Hi) as WA.
+    destruct l; try discriminate.
+    - now apply start_crlf_local.
+    - now apply end_crlf_local.
+    - unfold look_matches. now rewrite WB, WA.
+    - unfold look_matches. now rewrite WB, WA.
+    - unfold look_matches. now rewrite WB, WA.
+    - unfold look_matches. now rewrite WB, WA.
+    - unfold look_matches. now rewrite WB.
+    - unfold look_matches. now rewrite WA.
+  Qed.
+  End CRLF.
+
+  (* ---- the induction, for any set of looks that are local at this region ---- *)
+  Section Ind.
+  Variable ok : look -> bool.
+  Hypothesis Hok : forall l i, ok l = true -> i <= b - a -> look_matches l buf (a + i) = look_matches l content i.
+  Definition nonlocal (h : hir) : bool := has_look (fun l => negb (ok l)) h.
 
   Definition Loc (P1 P2 : nat -> nat -> Prop) : Prop :=
     forall p q, a <= p -> p <= q -> q <= b -> (P1 p q <-> P2 (p - a) (q - a)).
@@ -201,7 +303,7 @@ Section Locality.
       + intros (H0 & cp & n & H1 & Hd & Hr). apply utf8_decode_firstn in Hd as [Hd Hn].
         split; [lia|]. exists cp, n. split; [lia|]. auto.
     - rewrite !matches_look_iff, content_length. cbn in Hnl. apply negb_false_iff in Hnl.
-      pose proof (look_local l (p - a) Hnl ltac:(lia)) as E. replace (a + (p - a)) with p in E by lia.
+      pose proof (Hok l (p - a) Hnl ltac:(lia)) as E. replace (a + (p - a)) with p in E by lia.
       rewrite E. split; intros (H1 & H2 & H3); repeat split; auto; lia.
     - rewrite !matches_rep_iff, content_length.
       apply (RepM_local (Matches h buf) (Matches h content)); auto.
@@ -223,6 +325,7 @@ Section Locality.
       + apply orb_false_iff in Hnl as [N1 N2]. rewrite !matches_alt_cons_iff.
         rewrite (Hx N1 p q Hp Hpq Hq), (IHl N2). tauto.
   Qed.
+  End Ind.
 End Locality.
 
 (* the statement of Props/C01.v *)
@@ -234,6 +337,24 @@ Theorem line_locality_partial_proof : forall h buf a b i j,
   (Matches h buf (a + i) (a + j) <-> Matches h (sub buf a b) i j).
 Proof.
   intros h buf a b i j Hl Hab HL HR Hij. unfold local_looks in Hl. apply negb_true_iff in Hl.
-  pose proof (line_locality_aux buf a b Hab HL HR h Hl (a + i) (a + j) ltac:(lia) ltac:(lia) ltac:(lia)) as H.
+  pose proof (line_locality_aux buf a b Hab local_look (look_local buf a b Hab HL HR) h Hl
+                (a + i) (a + j) ltac:(lia) ltac:(lia) ltac:(lia)) as H.
+  replace (a + i - a) with i in H by lia. replace (a + j - a) with j in H by lia. exact H.
+Qed.
+
+(* CRLF lines: the content region is followed by the end of the buffer, by "\r\n", or by a bare "\n"
+   that is not preceded by "\r"; local look-around = CRLF line anchors and ASCII word assertions *)
+Theorem line_locality_crlf_proof : forall h buf a b i j,
+  local_looks_crlf h = true ->
+  a <= b <= length buf ->
+  (a = 0 \/ byte_at buf (a - 1) = 10%N) ->
+  (b = length buf \/ (byte_at buf b = 13%N /\ b < length buf) \/
+   (byte_at buf b = 10%N /\ b < length buf /\ (b = a \/ byte_at buf (b - 1) <> 13%N))) ->
+  i <= j <= b - a ->
+  (Matches h buf (a + i) (a + j) <-> Matches h (sub buf a b) i j).
+Proof.
+  intros h buf a b i j Hl Hab HL HR Hij. unfold local_looks_crlf in Hl. apply negb_true_iff in Hl.
+  pose proof (line_locality_aux buf a b Hab local_look_crlf (look_local_crlf buf a b Hab HL HR) h Hl
+                (a + i) (a + j) ltac:(lia) ltac:(lia) ltac:(lia)) as H.
   replace (a + i - a) with i in H by lia. replace (a + j - a) with j in H by lia. exact H.
 Qed.
